@@ -522,7 +522,7 @@ class kFlowDecomp(pathmodel.AbstractPathModelDAG):
             (
                 round(weights_sol_dict[i])
                 if self.weight_type == int
-                else float(weights_sol_dict[i])
+                else max(0.0, float(weights_sol_dict[i]))  # (a value like -1e-13 is the solver's 0 within its tolerance: the variable's lower bound is 0)
             )
             for i in range(self.k)
         ]
